@@ -16,7 +16,7 @@ RULE = ('cases: seeded peers (server role, client role via listen/accept, SSH-1 
         'single-element lists, long names, non-UTF-8 bytes; each peer is audited under two seeded delivery schedules (latency regime x '
         'segmentation x EAGAIN bursts) in a text and a JSON rendering. non-trivial: the algorithm report was reached and some list has >= 2 '
         'names; distinct by hash of (role, renderings, segmentation modes, the lists).')
-ASSUMPTIONS = ['c2s and s2c lists are generated equal so "the cipher list" is unambiguous',
+ASSUMPTIONS = ['c2s and s2c lists are equal in 85% of the cases; where they differ either direction is accepted but the text and JSON forms must show the same one',
                'names contain no whitespace or comma (RFC 4251 section 6); non-UTF-8 bytes are compared after UTF-8 decoding with replacement',
                'banner-phase text lines are segmented at line boundaries or inside lines (seeded)']
 
@@ -48,6 +48,15 @@ def cases(seed, tier):
                 c['family'] = rng.choice([4, 4, 6])
             else:
                 p['pre'] = rng.choice([[], [], ['Welcome to sim'], ['line one', 'line two']])
+            if rng.random() < 0.15:
+                # the two directions of the cipher / MAC lists differ (legal): either direction may be "the" list, but the text
+                # and the JSON form must show the same one
+                other_key = {'server': '%s_c2s', 'client': '%s_s2c'}[role]
+                for cat in ('enc', 'mac'):
+                    if rng.random() < 0.7:
+                        alt = gen.rand_list(rng, cat, maxlen=5, allow_odd=False) or [rng.choice(gen.db_names(cat))]
+                        p[other_key % cat] = alt
+                c['asym'] = True
             if i % 97 == 5:
                 # one very long list (about 60 KiB of names): the KEXINIT spans dozens of segments and recv() calls
                 cat = rng.choice(CATS)
@@ -82,13 +91,23 @@ def _expected(case):
     return {cat: advertised(prof, cat) for cat in CATS}
 
 
+def _alternatives(case, cat):
+    """Other direction of the list, when the peer advertises different lists per direction."""
+    prof = case['profile']
+    out = []
+    for k in ('%s_c2s' % cat, '%s_s2c' % cat):
+        if k in prof:
+            out.append([wire.shown(x) for x in prof[k] if wire.shown(x).strip()])
+    return out
+
+
 def check_text(case, rec, opts, out):
     exp = _expected(case)
     tr = report.TextReport(rec['stdout'], verbose=is_verbose(opts))
     role = case['role']
     for cat, want in exp.items():
         got = tr.names(cat)
-        if got != want:
+        if got != want and got not in _alternatives(case, cat):
             kind = 'missing' if len(got) < len(want) else ('extra' if len(got) > len(want) else 'different')
             out.append(viol('C01 text %s role=%s cat=%s names %s' % ('verbose' if is_verbose(opts) else 'plain', role, cat, kind),
                             'opts=%r\nadvertised: %r\nreported:   %r' % (opts, want, got)))
@@ -123,7 +142,7 @@ def check_json(case, rec, opts, out):
             got = None
         else:
             got = [e['algorithm'] if isinstance(e, dict) else e for e in val]
-        if got != want:
+        if got != want and got not in _alternatives(case, cat):
             kind = 'absent' if got is None else ('missing' if len(got) < len(want) else ('extra' if len(got) > len(want) else 'different'))
             out.append(viol('C01 json role=%s cat=%s names %s' % (role, cat, kind), 'advertised: %r\nreported:   %r' % (want, got)))
     prof = case['profile']
@@ -142,6 +161,7 @@ def run_case(case, ctx):
     counters = {}
     seed = case.get('pseed', case.get('seed', 0))
     stdouts = {}
+    shown = {}
     reached = False
     for ni, net in enumerate(case['nets']):
         for kind, opts in (('text', case['text_opts']), ('json', case['json_opts'])):
@@ -157,13 +177,20 @@ def run_case(case, ctx):
             if kind == 'text':
                 tr = check_text(case, rec, opts, out)
                 reached = reached or tr.has_alg_report()
+                shown.setdefault('text', {c: tr.names(c) for c in ('enc', 'mac')})
             else:
-                check_json(case, rec, opts, out)
+                doc = check_json(case, rec, opts, out)
+                if isinstance(doc, dict):
+                    shown.setdefault('json', {c: [e['algorithm'] if isinstance(e, dict) else e for e in (doc.get(c) or [])] for c in ('enc', 'mac')})
             stdouts.setdefault(kind, []).append(rec['stdout'])
     for kind, lst in stdouts.items():
         if len(lst) == 2 and lst[0] != lst[1]:
             out.append(viol('C01 %s report depends on the delivery schedule role=%s' % (kind, case['role']),
                             'nets=%r\n--- schedule A\n%s\n--- schedule B\n%s' % (case['nets'], lst[0][-1200:], lst[1][-1200:])))
+    if case.get('asym') and 'text' in shown and 'json' in shown:
+        for cat in ('enc', 'mac'):
+            if shown['text'][cat] != shown['json'][cat]:
+                out.append(viol('C01 text and JSON show different %s lists for a peer whose directions differ' % cat, 'text %r\njson %r' % (shown['text'][cat], shown['json'][cat])))
     exp = _expected(case)
     if reached and any(len(v) >= 2 for v in exp.values()):
         keys.append(h(case['role'], case['text_opts'], case['json_opts'], [n['seg'].get('mode') for n in case['nets']], sorted(exp.items())))
